@@ -84,6 +84,7 @@ type interpreter struct {
 	sched              *scheduler
 	maxPerm            int
 	syncMaps           map[*value]*omap
+	bfst               *bfState
 }
 
 type deferred struct {
